@@ -276,6 +276,7 @@ func checkC03(c *Ctx, r *Report) {
 	backslashScanReachesZero(c, r, "C03.R4.label-scan", []string{"NextLabel", "PrevLabel"}, "the label splitting of the text form disagrees with the wire labels for names that start with a backslash: label counts, RRSIG.Labels and the compression search of Len() are off by one label")
 	absoluteValidated(c, r, "C03.R1.absolute-validated", "the zone parser emits names over the 255-octet limit that PackDomainName and IsDomainName refuse")
 	originQualified(c, r, "C03.R4.origin-qualified", "with an origin written without the root dot every relative owner, every relative RDATA name and `@` come back not fully qualified, and Pack refuses the records the parser returned")
+	absoluteResultGuarded(c, r, "C03.R1.absolute-guarded", "a name that IsDomainName refuses (empty label, 64-octet label, over 255 octets, dangling backslash) is accepted in that field and silently stored as the empty name")
 }
 
 func c03R2(c *Ctx, r *Report) {
